@@ -1316,6 +1316,13 @@ impl PeerConnection {
         // This allows Offerer to immediately update transceivers with new parameters
         // that will be confirmed when answer is received
         if desc.sdp_type == SdpType::Offer {
+            // Reject the call before any transceiver is touched: a refused
+            // set_local_description must leave mids, payload maps and extmaps as they were.
+            if *self.inner.signaling_state.borrow() != SignalingState::Stable {
+                return Err(RtcError::InvalidState(
+                    "set_local_description(offer) requires stable signaling state".into(),
+                ));
+            }
             let is_reinvite = {
                 let local = self.inner.local_description.lock();
                 local.is_some()
